@@ -1,4 +1,5 @@
 import Pcore.Proofs.LatWeaken
+import Pcore.Proofs.LatRuntime
 import Pcore.Proofs.LatStruct
 set_option linter.unusedSimpArgs false
 set_option linter.unusedVariables false
@@ -185,6 +186,7 @@ theorem asg_refl : ∀ (n : Nat) (a : Ty), a.w ≤ n → Ty.WF cfg a → a.NoAli
       · simp [he]
       · simp [he, subsetStr]
     | regexp s => apply viaRecv rfl; unfold asgRecv; simp
+    | runtime rt nm pt => apply viaRecv rfl; rw [recv_runtime_eq]; exact rtAcc_refl rt nm pt
     | coll r => apply viaRecv rfl; unfold asgRecv; simp [Rng.sub]
     | array e r =>
       unfold Ty.WF at hwf; unfold Ty.NoAlias at hna; simp only [Ty.w] at hw
